@@ -44,10 +44,11 @@ struct State {
   int64_t fail_at = -1;            // refuse request number k (counted from the last reset_counters)
   uint64_t refused_fault = 0;
   // libc-bypass detection
-  volatile int in_lib = 0;         // >0 while a libcbor call is in progress
   uint64_t libc_mallocs_in_lib = 0, libc_frees_in_lib = 0;
 };
 static State g;
+// >0 while the *current thread* is inside a libcbor call (other harness threads may use the libc heap freely)
+static thread_local int tl_in_lib = 0;
 
 static inline void* raw_alloc(size_t n) {
   if (n > g.single_cap) return nullptr;
@@ -99,13 +100,13 @@ static inline void reset_counters() {
 static inline void reset_all() { g.a[0].reset(); g.a[1].reset(); g.cur = 0; g.live_blocks = 0; reset_counters(); }
 
 #ifdef AR_ASAN
-static void hook_malloc(const volatile void*, size_t) { if (g.in_lib > 0) g.libc_mallocs_in_lib++; }
-static void hook_free(const volatile void*) { if (g.in_lib > 0) g.libc_frees_in_lib++; }
+static void hook_malloc(const volatile void*, size_t) { if (tl_in_lib > 0) g.libc_mallocs_in_lib++; }
+static void hook_free(const volatile void*) { if (tl_in_lib > 0) g.libc_frees_in_lib++; }
 static inline bool install_hooks() { return __sanitizer_install_malloc_and_free_hooks(hook_malloc, hook_free) != 0; }
 #else
 static inline bool install_hooks() { return false; }
 #endif
 
-struct InLib { InLib() { g.in_lib++; } ~InLib() { g.in_lib--; } };
+struct InLib { InLib() { tl_in_lib++; } ~InLib() { tl_in_lib--; } };
 
 }  // namespace ar
